@@ -41,7 +41,7 @@ type c01Msg struct {
 	// OnChannel0: with a logical channel in the case, send this message on
 	// channel 0 instead (the two channels of one connection alternate)
 	OnChannel0 bool `json:"on_channel_0,omitempty"`
-	K, D       int      `json:"-"`
+	K, D       int  `json:"-"`
 }
 
 type c01Case struct {
